@@ -96,3 +96,12 @@ func (n *Net) CutAt(c *Conn, limit uint64, fin bool) bool {
 // SentLocked is Sent for use inside a Net.Tap callback (which already runs
 // with the network lock held).
 func (c *Conn) SentLocked() uint64 { return c.sent }
+
+// SetWindowLocked gives this endpoint a send window: once `bytes` bytes are
+// queued undelivered its Write blocks until the driver has delivered some (what
+// a sender sees on a slow path). For use inside a Net.Tap callback (network
+// lock held); 0 removes the window. Default: no window, Write never blocks.
+func (c *Conn) SetWindowLocked(bytes int) {
+	c.window = bytes
+	c.rcond.Broadcast()
+}
